@@ -12,6 +12,7 @@ HDIR = os.path.join(os.path.dirname(os.path.dirname(os.path.abspath(__file__))),
 
 # property -> [(harness file, {tier: per-condition timeout}, conditions only in thorough)]
 PLAN = {
+    "C07": [("h_c07.py", {"quick": 240, "thorough": 900}, set())],
     "C09": [("h_c09.py", {"quick": 240, "thorough": 900}, set())],
     "C08": [("h_c08.py", {"quick": 240, "thorough": 900}, set())],
     "C14": [("h_c14s.py", {"quick": 200, "thorough": 900}, {"sym_set_allowed_later_full", "sym_remove_instance0"}),
@@ -64,9 +65,16 @@ def main(pid, tier):
     return chk
 
 
-UNBLOCK_FILES = {"h_c14.py"}
+UNBLOCK_FILES = {"h_c14.py", "h_c07.py"}
 
 META = {
+    "C07": dict(
+        bounds={"formats": ["kida", "umist", "leeds", "uclchem", "naunet", "krome"], "families": {"reactant": "3 slots from species (incl. names at the column-width limit), marker tokens and empty", "product": "up to 5 slots from 8 species incl. empty", "numeric": "8x8x8 signed / exponent-notation / integer literals for alpha, beta, gamma",
+                "code": "8 type codes (KIDA formula incl. out-of-range, UMIST two-letter codes, Leeds types, UCLCHEM markers incl. FREEZE window rule, native codes) x 8 windows x 8 index values", "file": "3 data lines with a blank line, a whitespace-only line and a comment/directive line at every position"}},
+        assume=["format definitions are the independent encoders of vf/encoders.py", "each line is chosen by symbolic selectors (512 selections per condition, all explored), encoded, decoded by the real parser (untraced) and compared with the abstract reaction",
+                "UMIST lines with more than one fit and free-form garbage are outside the claim"],
+        rule="one condition = one CrossHair run to 'Confirmed over all paths' (format x field family)",
+    ),
     "C09": dict(
         bounds={"names": "all ordered pairs of 40 names (ions up to 4 charges, three electron spellings, ortho/para labels, ice and gas pairs, grains, H2*, c-/l- isomers, D-isotopologues)", "surface spellings": "'#X' vs 'GX' with a custom prefix for 6 molecules",
                 "projects": ["naming network (native file, hh93)", "minimal.kida", "primordial.krome with cooling", "UCLCHEM upper-case list with replacement (rr07)"], "artefacts": ["naunet_macros.h through the real preprocessor", "constant_indexes.py (ast)", "[summary] of naunet_config.toml written by `naunet render`", "enzo/naunet_enzo.h from `naunet render --patch enzo`"]},
